@@ -145,6 +145,10 @@ def run(ctx):
         corr_exp.append(r)
         case = {"kind": kind, "sequence": sq, "structure": s, "pairs": r if not isinstance(r, Err) else repr(r)}
         corr_case.append((case, "decode"))
+        if not isinstance(r, Err) and _balanced(s):
+            want = _decode(s)
+            if sorted(map(tuple, r)) != want:
+                py_fail.append((case, "the decoder returns pairs the string does not encode (each bracket type matches on its own, innermost first): expected %r" % (want[:12],)))
         if not isinstance(r, Err):
             bp = impl2d.guarded(lambda: [[e.index_, e.sequence, e.pair] for e in BpSeq.from_dotbracket(DotBracket.from_string(sq, s)).entries])
             corr_expr.append(f"run_from_db {lit(sq)} {lit(s)}")
@@ -215,6 +219,17 @@ def run(ctx):
     ctx.coverage["correspondence_cases"] = len(corr_expr)
     ctx.coverage["exhaustive"] = True
     ctx.coverage["exhaustive_bound"] = "all pairings on <= %d positions" % (7 if ctx.quick else 9)
+
+
+def _decode(s):
+    """the pairs a balanced dot-bracket string encodes: every bracket type is matched separately, innermost first"""
+    st, out = {}, []
+    for i, c in enumerate(s):
+        if c in gen2d.OPEN:
+            st.setdefault(gen2d.OPEN.index(c), []).append(i)
+        elif c in gen2d.CLOSE:
+            out.append((st[gen2d.CLOSE.index(c)].pop(), i))
+    return sorted(out)
 
 
 def _balanced(s):
